@@ -13,6 +13,12 @@ CLAIMED = {
    "DESIGN.md section 4 H-fwd"),
 }
 
+CLAIMED["C07"] = ("ckpt", "exploration",
+   "deterministic simulation of a checkpoint/crash/restore process with storage fault injection (lost, torn, flipped, truncated, foreign checkpoints) plus enumerated single-byte corruption sweep",
+   "A simulated long-running hashing process checkpoints MarshalBinary output to a simulated disk, crashes at generated points and restores with UnmarshalBinary into a fresh hash; with intact checkpoints every later Sum/Size/BlockSize/MarshalBinary must equal an uninterrupted run (exact oracle, fault-free configuration kept separate), with corrupted checkpoints UnmarshalBinary must return an error or a state on which Write/Sum/Reset/MarshalBinary do not panic. The single-byte corruption space (every position x 256 values x 8 base states x 8 hash kinds) is enumerated completely in both tiers; multi-fault histories are sampled.",
+   "No concurrency is involved; the simulation content is the crash/restore and storage-fault model. Reference = uninterrupted instance of the same code (transparency is relative by definition). Documented Keccak misuse panics (Write/Sum after Read on a squeezing state) are not counted.",
+   "DESIGN.md section 4 H-ckpt")
+
 NA = {
  "C01": "pure function of (key, nonce, plaintext, ad): no schedule, clock, peer, stream fault or persisted state for a simulator to own; needs an independent AEAD and input generation (differential testing)",
  "C02": "pure predicate over byte strings; tampering here is input mutation, not an in-flight fault on a stateful stream",
@@ -54,7 +60,7 @@ NA = {
 }
 
 PLANNED = {
- "C07": "H-ckpt", "C25": "H-wire", "C26": "H-wire", "C29": "H-kex", "C30": "H-kex", "C31": "H-rekey",
+ "C25": "H-wire", "C26": "H-wire", "C29": "H-kex", "C30": "H-kex", "C31": "H-rekey",
  "C32": "H-sauth", "C33": "H-sauth", "C34": "H-cauth", "C35": "H-flow", "C36": "H-mux",
  "C43": "H-agent", "C47": "H-otr", "C50": "H-acme", "C51": "H-autocert",
 }
